@@ -132,11 +132,10 @@ template<class A> static bool replay_script(const JV&rec,size_t shard,int how){
   int ns=(int)rec["expect"].size(); Sess<A> S(ns,3,false); S.shard=shard; g.event_to(shard,J().str("e","Reset").num("ns",ns).num("nb",3).done());
   g.set_case(J().str("driver","session/script").num("w",A::W).raw("script",rec["script"].dump()).done());
   for(size_t k=0;k<rec["script"].size();++k){ JV a=rec["script"][k]; if(a["op"].s=="scribble"){ JV h; h.k=JV::NUM; h.n=how; a.o.push_back({"how",h}); } S.exec(a); }
-  // the expected final state that TLC computed, compared natively (the recorded events are validated by Trace_Session as well)
-  bool ok=!S.dead; std::string why; bool relational=false; for(size_t k=0;k<rec["script"].size();++k) if(rec["script"][k]["op"].s=="rem") relational=true;
-  for(int s=1;s<=ns&&ok;++s){ const JV&e=rec["expect"][s-1]; bool held=e["held"].n==1; if(held!=S.slots[s].held){ ok=false; why="slot "+std::to_string(s)+" held/empty differs"; break; }
-    if(!held||e["usable"].n!=1||relational) continue;
-    Text t; if(!real_tostring<A>(S.slots[s].uri,t)||t!=e["text"].text()){ ok=false; why="text of slot "+std::to_string(s)+" is '"+show(t)+"', the specification's behaviour ends with '"+show(e["text"].text())+"'"; } }
+  // the expected final state that TLC computed: which slots hold a URI is compared natively; the VALUES are decided by Trace_Session on the
+  // recorded steps (it knows the relation for create-reference and the enabled deviations; a native text comparison here would not)
+  bool ok=!S.dead; std::string why;
+  for(int s=1;s<=ns&&ok;++s){ const JV&e=rec["expect"][s-1]; bool held=e["held"].n==1; if(held!=S.slots[s].held){ ok=false; why="slot "+std::to_string(s)+" held/empty differs"; } }
   if(S.dead){ why="memory fault inside a library call"; }
   if(!ok) g.violation(J().str("prop","C07").str("why","replayed TLC behaviour: "+why).raw("script",rec["script"].dump()).num("w",A::W).done());
   S.finish(); g.count(rec["script"].dump(),true); return ok; }
